@@ -51,7 +51,14 @@ def check(model: Model, rep: Report, tier: str):
         _h7(model, rep, _cg, _Eff(model, _cg), rule="C09.P13", keep=lambda f: "/structure/" in f.module.relpath or "/language/" in f.module.relpath)
     from .c17 import y6
     from .common import share_rule
+    from .common import handover_complete_rule
+    with rep.isolated():
+        handover_complete_rule(model, rep, "C09.P16")
     from .c06 import u5 as _u5
+    from .c17 import y_tables as _yt
+    with rep.isolated():
+        share_rule(rep, model, _yt, "C09.P15", "the parity every ancilla accumulates is that of ITS data neighbours: in the shipped gate-sequence tables every ancilla-data edge of every "
+                   "parity group is played exactly once per round, on pairwise distinct qubits per step (= C17.Y2/Y3)")
     with rep.isolated():
         share_rule(rep, model, _u5, "C09.P14", "the unrolled circuit is exported with the counts in force after unrolling: nr_of_repetitions is computed on every read (= C06.U5); a "
                    "cached count makes the exporter repeat the already unrolled rounds again")
